@@ -64,8 +64,15 @@ fn generate_error_definitions(
             Fields::Unit => {
                 let comments = utils::extract_doc_comments(&variant.attrs);
                 let comment_objects = shared::generate_comment_objects(&comments, crate_path);
+                // The comments are a `const` item (here and below): inline, they are a borrowed
+                // temporary that is only promoted to `'static` while no earlier variant's
+                // expression can diverge, which the `match` of a tuple variant does.
                 let error_variant = quote! {
-                    &#crate_path::idl::Error::new(#variant_name, &[], &[#(#comment_objects),*])
+                    &{
+                        const COMMENTS: &[&#crate_path::idl::Comment<'static>] =
+                            &[#(#comment_objects),*];
+                        #crate_path::idl::Error::new(#variant_name, &[], COMMENTS)
+                    }
                 };
                 error_variants.push(error_variant);
             }
@@ -86,8 +93,10 @@ fn generate_error_definitions(
                         static FIELD_REFS: &[&#crate_path::idl::Field<'static>] = &[
                             #(#field_refs),*
                         ];
+                        const COMMENTS: &[&#crate_path::idl::Comment<'static>] =
+                            &[#(#comment_objects),*];
 
-                        #crate_path::idl::Error::new(#variant_name, FIELD_REFS, &[#(#comment_objects),*])
+                        #crate_path::idl::Error::new(#variant_name, FIELD_REFS, COMMENTS)
                     }
                 };
                 error_variants.push(error_variant);
